@@ -154,9 +154,29 @@ pub fn child(seed: u64) -> i32 {
             Err(e) => return fail("builder-rejects-payload-length", format!("{}", e)),
         };
     }
-    let rec = match b.build() {
-        Ok(r) => Arc::new(r),
-        Err(e) => return fail("exporter-does-not-build", format!("{}", e)),
+    // With telemetry on the exporter is installed as the process's global recorder (this is a child process):
+    // its own telemetry handles are created through the macros on the forwarder thread and only exist then.
+    // Otherwise it is built and driven directly.
+    #[derive(Clone)]
+    struct Rec(Option<Arc<metrics_exporter_dogstatsd::DogStatsDRecorder>>);
+    impl Rec {
+        fn with<T>(&self, f: impl FnOnce(&dyn Recorder) -> T) -> T {
+            match &self.0 {
+                Some(r) => f(&**r),
+                None => metrics::with_recorder(|r| f(r)),
+            }
+        }
+    }
+    let rec = if telemetry {
+        match b.install() {
+            Ok(()) => Rec(None),
+            Err(e) => return fail("exporter-does-not-build", format!("install(): {}", e)),
+        }
+    } else {
+        match b.build() {
+            Ok(r) => Rec(Some(Arc::new(r))),
+            Err(e) => return fail("exporter-does-not-build", format!("{}", e)),
+        }
     };
     // script
     let mut total_inc = [0u64; 2];
@@ -170,7 +190,7 @@ pub fn child(seed: u64) -> i32 {
                 let rec = rec.clone();
                 std::thread::spawn(move || {
                     for i in 0..per_thread {
-                        rec.register_counter(&Key::from_name(format!("ci{}", (t + i) % 2)), &META).increment(1 + (i as u64 % 3));
+                        rec.with(|r| r.register_counter(&Key::from_name(format!("ci{}", (t + i) % 2)), &META)).increment(1 + (i as u64 % 3));
                     }
                 })
             })
@@ -181,11 +201,11 @@ pub fn child(seed: u64) -> i32 {
             }
         }
         for i in 0..(10 + phase * 7) {
-            rec.register_histogram(&Key::from_parts("h", vec![Label::new("own", "l")]), &META).record(next_tag as f64);
+            rec.with(|r| r.register_histogram(&Key::from_parts("h", vec![Label::new("own", "l")]), &META)).record(next_tag as f64);
             tags.push(next_tag);
             next_tag += 1;
             last_gauge = (phase * 100 + i) as f64 + 0.5;
-            rec.register_gauge(&Key::from_name("g"), &META).set(last_gauge);
+            rec.with(|r| r.register_gauge(&Key::from_name("g"), &META)).set(last_gauge);
         }
         for h in hs {
             let _ = h.join();
@@ -205,13 +225,19 @@ pub fn child(seed: u64) -> i32 {
         let mut hist: HashMap<u32, u32> = HashMap::new();
         let mut gauge_last: Option<f64> = None;
         let mut sampled_messages = 0usize;
+        let mut telemetry_messages = 0usize;
         let tags_total = tags.len();
         for m in &msgs {
             if telemetry && m.name.starts_with("datadog.dogstatsd.client.") {
-                // the exporter's own telemetry (documented, enabled by default): not part of the accounting
-                if m.mtype != "c" && m.mtype != "g" {
+                // the exporter's own telemetry (documented, enabled by default, always under this namespace): not
+                // part of the accounting, but counters like any other as far as the timestamp rule goes
+                if m.mtype != "c" {
                     return fail("wrong-type", format!("telemetry message {:?}", m));
                 }
+                if m.timestamp.is_some() != aggressive {
+                    return fail("timestamp-mode-mismatch", format!("mode {} but the telemetry counter {:?} has timestamp {:?}", if aggressive { "Aggressive" } else { "Conservative" }, m.name, m.timestamp));
+                }
+                telemetry_messages += 1;
                 continue;
             }
             match m.mtype.as_str() {
@@ -283,6 +309,8 @@ pub fn child(seed: u64) -> i32 {
         if hist.keys().any(|t| !tags.contains(t)) {
             return fail("sampled-value-not-recorded", format!("histogram values received that were never recorded: {:?}", hist.keys().filter(|t| !tags.contains(t)).collect::<Vec<_>>()));
         }
+        // telemetry is documented to be sent when enabled: wait for some of it as well
+        let hist_complete = hist_complete && (!telemetry || telemetry_messages > 0);
         let complete = (0..2).all(|i| sums.get(&name(&format!("ci{}", i))).copied().unwrap_or(0) == total_inc[i]) && hist_complete && gauge_last.map(|g| g == last_gauge).unwrap_or(false);
         if complete {
             println!("CHILD-OK {} messages over {}", msgs.len(), describe(seed));
